@@ -55,11 +55,30 @@ func runC01(rc *RunCtx) {
 		nU = 1 + G.Draw(5)
 	}
 	U := genKeys(G, nU, "")
+	// rotated variants: the same id with new key material (another secret, the
+	// same cipher or one with the same salt size); a version holds either form
+	sameSalt := map[string][]string{"chacha20-ietf-poly1305": {"chacha20-ietf-poly1305", "aes-256-gcm"}, "aes-256-gcm": {"aes-256-gcm", "chacha20-ietf-poly1305"},
+		"aes-192-gcm": {"aes-192-gcm"}, "aes-128-gcm": {"aes-128-gcm"}}
+	rotated := map[*Key]*Key{}
+	if G.Draw(3) == 0 {
+		for _, k := range U {
+			if G.Draw(3) == 0 {
+				cs := sameSalt[k.Cipher]
+				rotated[k] = mkKey(k.ID, cs[G.Draw(len(cs))], k.Secret+"-rotated")
+			}
+		}
+		if len(rotated) > 0 {
+			simrt.Probe("key_material_rotated_under_same_id")
+		}
+	}
 	subset := func() []*Key {
 		var s []*Key
 		mode := G.Draw(4)
 		for _, k := range U {
 			if mode == 0 || G.Draw(3) != 0 {
+				if r := rotated[k]; r != nil && G.Draw(2) == 0 {
+					k = r
+				}
 				s = append(s, k)
 			}
 		}
@@ -138,6 +157,9 @@ func runC01(rc *RunCtx) {
 		default:
 			c.kind = 0
 			c.key = U[G.Draw(len(U))]
+			if r := rotated[c.key]; r != nil && G.Draw(2) == 0 {
+				c.key = r
+			}
 		}
 		conns[k] = c
 		port := 8000 + k
